@@ -76,6 +76,21 @@ func aDeposit(t string, dseq uint64, amt int64) Action {
 		}}
 }
 
+// probes paying in the wrong coin (all must be refused)
+func aDepositDenom(t string, dseq uint64, amt int64, dn string) Action {
+	return Action{Name: fmt.Sprintf("Deposit(%s,%d,%d%s)", t, dseq, amt, dn), Kind: "DepositDeployment", Signer: t, Tag: tag("owner", t, "dseq", u(dseq)),
+		Msg: func(c *Cast) sdk.Msg {
+			return &dtypes.MsgDepositDeployment{ID: dtypes.DeploymentID{Owner: c.S(t), DSeq: dseq}, Amount: sdk.NewInt64Coin(dn, amt)}
+		}}
+}
+
+func aCreateBidDenom(b bidRef, price, deposit int64, dn string) Action {
+	return Action{Name: fmt.Sprintf("CreateBid(%s,price=%d,dep=%d%s)", b, price, deposit, dn), Kind: "CreateBid", Signer: b.P, Tag: b.tags(),
+		Msg: func(c *Cast) sdk.Msg {
+			return &mtypes.MsgCreateBid{Order: b.id(c).OrderID(), Provider: c.S(b.P), Price: coin(price), Deposit: sdk.NewInt64Coin(dn, deposit)}
+		}}
+}
+
 func aUpdateDeployment(t string, dseq uint64, v string) Action {
 	return Action{Name: fmt.Sprintf("UpdateDeployment(%s,%d,%s)", t, dseq, v), Kind: "UpdateDeployment", Signer: t, Tag: tag("owner", t, "dseq", u(dseq)),
 		Msg: func(c *Cast) sdk.Msg {
@@ -219,12 +234,14 @@ func scEscrow() Scenario {
 	al = append(al, bidOps(bidRef{"T1", 1, 1, 1, "P1"}, 2, true)...)
 	al = append(al, bidOps(bidRef{"T1", 1, 1, 1, "P2"}, 3, true)...)
 	al = append(al, bidOps(bidRef{"T1", 1, 2, 1, "P2"}, 3, true)...)
-	al = append(al, bidOps(bidRef{"T1", 1, 1, 2, "P1"}, 1, true)...)
+	// second order of group 1, bid by P2: (gseq 1, oseq 2, P2) mirrors (gseq 2, oseq 1, P2) above
+	al = append(al, bidOps(bidRef{"T1", 1, 1, 2, "P2"}, 1, true)...)
 	al = append(al,
 		aDeposit("T1", 1, 3),
 		aCloseDeployment("T1", 1),
 		aGroup("CloseGroup", "T1", 1, 1), aGroup("PauseGroup", "T1", 1, 1), aGroup("StartGroup", "T1", 1, 1),
 		aSendToEscrow("B", 1),
+		aDepositDenom("T1", 1, 3, denom2), aCreateBidDenom(bidRef{"T1", 1, 2, 1, "P1"}, 2, 5, denom2),
 	)
 	sc.Alphabet = al
 	return sc
